@@ -256,7 +256,8 @@ class Recorder:
 
     def put(self, url, headers=None, json=None, timeout=None, **kw):
         import requests
-        self.calls.append((url, json))
+        import copy
+        self.calls.append((url, copy.deepcopy(json)))
         r = requests.Response()
         r.status_code = 200
         r.json = lambda: {"job_id": "J1", "execution_datetime": "2024-01-01T00:00:00", "status": "pending"}
@@ -287,8 +288,10 @@ def classify(ex):
 
 
 def mk_options(o):
+    import copy
     from qib.backend.wmi import WMIOptions
-    return WMIOptions(shots=o["shots"], init_qubits=o["init_qubits"], do_emulation=o["do_emulation"], **o["optional"])
+    return WMIOptions(shots=o["shots"], init_qubits=o["init_qubits"], do_emulation=o["do_emulation"],
+                      **copy.deepcopy(o["optional"]))
 
 
 def submit(procname, spec, o):
@@ -488,6 +491,76 @@ def h_name(q):
     return q["experiments"][0]["header"]["name"]
 
 
+# ---- histories: the same observer called again, after the caller has modified what the first call returned.
+# "The serialised Qobj lists the circuit's instructions ..." and "... with counts unchanged" are statements about every
+# call; a Qobj / dictionary handed to the caller must not be a window into the experiment's own state.
+SIG_QOBJ_ALIAS = "history:as_qasm-changed-by-modifying-a-returned-qobj"
+SIG_COUNTS_ALIAS = "history:get_counts-changed-by-modifying-a-returned-dictionary"
+UNREPAIRED = {}     # sig -> True when the always-run probe input fails (the defect is present in this tree)
+
+
+def scribble(x):
+    """modify every mutable container reachable from x (after descending into it)"""
+    if isinstance(x, dict):
+        for v in list(x.values()):
+            scribble(v)
+        x["__scribble__"] = 1
+    elif isinstance(x, list):
+        for v in list(x):
+            scribble(v)
+        x.append("__scribble__")
+
+
+def alias_sig(ctx, sig, probe):
+    """the probe input decides whether the tree has the (known) defect; in a tree where the probe passes, any other
+    failing input of the same kind is reported under a different signature, i.e. as a violation"""
+    if probe:
+        return sig
+    return sig if UNREPAIRED.get(sig) else sig + ":regression"
+
+
+def history_qobj(ctx, desc, exp, sent, probe=False):
+    import copy
+    q1 = exp.as_qasm()
+    ref = copy.deepcopy(q1)
+    if sent is not None and ref != sent:
+        ctx.fail("history:as_qasm-differs-from-what-was-sent", desc, "the Qobj of the submission request", "different")
+    if exp.as_qasm() != ref:
+        ctx.fail("history:as_qasm-not-repeatable", desc, "same Qobj", "different")
+    scribble(q1["experiments"])
+    scribble(q1["header"])
+    q1["config"]["shots"] = -1
+    ok = (exp.as_qasm() == ref)
+    if probe:
+        UNREPAIRED[SIG_QOBJ_ALIAS] = not ok
+    if not ok:
+        ctx.fail(alias_sig(ctx, SIG_QOBJ_ALIAS, probe), desc, "the Qobj as before", "the caller's modifications show up in a fresh as_qasm()")
+    ctx.count("history_as_qasm")
+    return ok
+
+
+def history_counts(ctx, desc, res, counts, want_binary, probe=False):
+    """res: a WMIExperimentResults holding the server's dictionary `counts`"""
+    import copy
+    ref = copy.deepcopy(counts)
+    b1 = res.get_counts(binary=True)
+    b1["__scribble__"] = 1
+    for k in list(b1):
+        b1[k] = -5
+    g = res.get_counts()
+    for k in list(g):
+        g[k] = -5
+    g["0xfff"] = 1
+    ok = (res.get_counts() == ref and list(res.get_counts(binary=True).items()) == want_binary)
+    if probe:
+        UNREPAIRED[SIG_COUNTS_ALIAS] = not ok
+    if not ok:
+        ctx.fail(alias_sig(ctx, SIG_COUNTS_ALIAS, probe), desc, (ref, want_binary),
+                 (res.get_counts(), list(res.get_counts(binary=True).items())))
+    ctx.count("history_get_counts")
+    return ok
+
+
 # ------------------------------------------------------------------------------------------ generators
 
 def valid_pool(procname):
@@ -499,7 +572,7 @@ def valid_pool(procname):
         two = [("iswap", q(a), q(b)) for a in range(3) for b in range(3) if a != b]
         two += [("ctrl", [q(a)], True, ("plain", "z", q(b))) for a in range(3) for b in range(3) if a != b]
         meas = [("measure", [q(0), q(1), q(2)], []), ("measure", [q(1)], []), ("measure", [q(2), q(0)], [5, 0]),
-                ("measure", [q(0)], [7])]
+                ("measure", [q(0)], [7]), ("measure", [q(0), q(0)], []), ("measure", [q(0), q(1)], [3, 3])]
         return one, two, meas
     if procname == "qc":
         one = [("plain", k, q(0)) for k in ("id", "x", "y", "sx")] + [("rot", "rz", th, q(0)) for th in (90, 1)]
@@ -539,6 +612,7 @@ def defects(procname):
               ("crash", ("ctrl", [q(0)], True, ("plain", "t", q(1)))), ("crash", ("measure", [], [])),
               ("crash", ("ctrl", [q(0)], True, ("ctrl", [q(1)], True, ("plain", "x", q(2))))),
               ("ctrlstate", ("ctrl", [q(0)], False, ("plain", "z", q(1)))),
+              ("qubits", ("ctrl", [q(1)], True, ("plain", "z", q(1)))),       # control = target
               ("field", ("plain", "x", (1, 0)))]
     elif procname == "qc":
         D += [("basis", ("plain", "h", q(0))), ("basis", ("rot", "rx", 1, q(0))), ("basis", ("iswap", q(0), q(1))),
@@ -556,6 +630,8 @@ def defects(procname):
               ("coupling", ("ctrl", [q(0), q(1)], True, ("plain", "x", q(2)))), ("coupling", ("iswap", q(3), q(0))),
               ("coupling", ("ctrl", [q(2), q(1)], True, ("plain", "x", q(0)))), ("coupling", ("ctrl", [q(1), q(2)], True, ("plain", "x", q(3)))),
               ("params", ("raw", "cx", [q(0), q(1)], [1])), ("basis", ("plain", "y", q(0))),
+              ("qubits", ("ctrl", [q(0), q(0)], True, ("plain", "x", q(2)))),      # the same control twice
+              ("coupling", ("ctrl", [q(0), (1, 1)], True, ("plain", "x", q(2)))),  # controls in two fields, tuple [0,1,2] configured
               ("range", ("measure", [q(4)], [])), ("ctrlstate", ("ctrl", [q(0)], False, ("plain", "x", q(1)))),
               ("ctrlstate", ("ctrl", [q(1), q(2)], False, ("plain", "x", q(3))))]
     elif procname == "custom2":
@@ -646,11 +722,15 @@ def run(ctx):
             cases.append(("CQobj %s %s (Some %s)" % (t_options(o), t_circ(spec), t_qobj(c)),
                           dict(desc, kind="qobj")))
         oracle_submit(ctx, desc, procname, spec, o, verdict, nreq, exp, rec)
+        if exp is not None:
+            history_qobj(ctx, desc, exp, rec.calls[0][1]["qobj"] if rec.calls else None, probe=(tag == "probe"))
         if len(spec) >= 4 and verdict != "Accept":
             ctx.sample({"proc": procname, "circuit": spec, "shots": o["shots"], "verdict": verdict})
         return verdict
 
     q = lambda i: (0, i)
+    # -- probe input of the two aliasing findings (always run, first): decides whether this tree has them
+    one("qsim", [("plain", "h", q(0)), ("rot", "rz", 90, q(1)), ("measure", [q(0), q(1)], [])], DEFAULT_OPT, "probe")
     # -- the documented failing inputs of the unrepaired code, always run
     one("qsim", [("measure", [q(5)], []), ("plain", "x", q(0))], DEFAULT_OPT, "defect_input")
     one("qsim", [], DEFAULT_OPT, "defect_input")
@@ -716,6 +796,33 @@ def run(ctx):
             spec.append(ins)
         one(procname, spec, dict(DEFAULT_OPT, shots=rng.choice([1, 1, 5, 5, 7, 8, 100, 101, 8196, 8197, 65536])), "random")
 
+    # -- recorded, not claimed (outside "all circuits x processors x option settings": the experiment keeps references to
+    #    the caller's circuit and options, which stay mutable): what as_qasm() shows after the caller changed them
+    try:
+        import copy as _copy
+        m = build(("measure", [q(0), q(1)], []))
+        circ = ENV["qib"].Circuit([build(("plain", "x", q(0))), m])
+        rec = Recorder()
+        import requests as _rq
+        saved = _rq.put
+        _rq.put = rec.put
+        try:
+            opt = mk_options(DEFAULT_OPT)
+            exp = ENV["procs"]["qsim"].submit_experiment("C18", circ, opt)
+        finally:
+            _rq.put = saved
+        m.on([qubit(q(0))])                 # public API of the instruction object the circuit holds
+        opt.shots = 2 ** 30
+        qo_ = exp.as_qasm()
+        cq = canon_qobj(qo_, DEFAULT_OPT)
+        used = {i for d in cq["ins"] for i in d["qubits"]}
+        if not used <= set(cq["ql"]):
+            ctx.count("recorded_header_follows_the_live_circuit_but_instructions_are_a_snapshot")
+        if cq["shots"] != DEFAULT_OPT["shots"]:
+            ctx.count("recorded_qobj_follows_options_changed_after_submission")
+    except Exception as ex:
+        ctx.count("recorded_history_probe_failed_" + type(ex).__name__)
+
     # -- single instructions: as_qasm
     singles = []
     for procname in ("qsim", "qc", "custom1", "custom2"):
@@ -726,6 +833,9 @@ def run(ctx):
                 for inner in [("plain", k, q(0)) for k in PLAIN] + [("rot", k, 7, q(1)) for k in ROT]
                 + [("u3", 1, 2, 3, q(1)), ("iswap", q(0), q(1)), ("noqasm", "rxx", [q(0), q(1)], 1)]]
     singles += [("ctrl", [q(2), q(1)], std, ("plain", k, q(0))) for std in (True, False) for k in ("x", "z")]
+    singles += [("ctrl", [q(2), q(1)], True, ("rot", "rz", 3, q(0))), ("ctrl", [q(0), (1, 0)], True, ("plain", "x", (1, 2))),
+                ("ctrl", [q(3), q(2), q(1), q(0)], False, ("plain", "z", (1, 0))), ("iswap", q(0), (1, 0)),
+                ("measure", [q(1), q(1), q(0)], []), ("measure", [q(0), q(1)], [2, 2]), ("delay", -1, [q(1), q(1)])]
     singles += [("ctrl", [q(3), q(2), q(1)], True, ("plain", "x", q(0))), ("delay", 0, []), ("barrier", [q(2), q(0)]),
                 ("measure", [q(2), q(0)], [0, 2]), ("measure", [q(1), (1, 1)], [])]
     sseen = set()
@@ -790,10 +900,17 @@ def counts_one(nq, keys):
     for ds, upper, cnt in keys:
         s = "".join(HEX[d] for d in ds)
         counts["0x" + (s.upper() if upper else s)] = cnt
-    res.from_json({"runtime": 1, "counts": [counts]})
-    plain = res.get_counts()
+    import copy
+    res.from_json({"runtime": 1, "counts": [copy.deepcopy(counts)]})
+    plain = copy.deepcopy(res.get_counts())
     out = res.get_counts(binary=True)
+    if list(res.get_counts(binary=True).items()) != list(out.items()) or res.get_counts() != plain:
+        out = {"not repeatable": -1}
+    LAST_RES[:] = [res]
     return counts, plain, list(out.items())
+
+
+LAST_RES = []
 
 
 def oracle_counts(ctx, desc, nq, keys, counts, plain, out):
@@ -827,15 +944,17 @@ def counts_cases(ctx):
         if len(keys) >= 2:
             ctx.nontriv(repr(desc))
         oracle_counts(ctx, desc, nq, keys, counts, plain, out)
+        history_counts(ctx, desc, LAST_RES[0], counts, out, probe=(tag == "probe"))
 
-    # exhaustive: every value 0..2^6-1 as one or two hex digits, every width 0..6
+    add(2, [([1], False, 5), ([2], False, 0), ([3], False, 7)], "probe")
+    # exhaustive: every value 0..2^6-1 as one or two hex digits, every width 0..6; counts include 0
     for nq in range(0, 7):
         for v in range(0, 64):
-            add(nq, [([v // 16, v % 16], False, v + 1)], "counts_single")
+            add(nq, [([v // 16, v % 16], False, v % 3)], "counts_single")
             if v < 16:
                 add(nq, [([v], True, 3)], "counts_single")
         # the full dictionary of an nq-qubit register
-        add(nq, [([v // 16, v % 16] if v >= 16 else [v], False, 100 + v) for v in range(2 ** min(nq, 5))], "counts_full")
+        add(nq, [([v // 16, v % 16] if v >= 16 else [v], False, (100 + v) * (v % 2)) for v in range(2 ** min(nq, 5))], "counts_full")
     # leading zeros, long keys, equal numbers under different spellings (dict collision), upper case
     add(3, [([0, 3], False, 5), ([3], False, 9)], "counts_collision")
     add(2, [([0, 0, 1], False, 5), ([2], True, 9), ([0, 1], False, 4)], "counts_collision")
@@ -849,7 +968,7 @@ def counts_cases(ctx):
                 ds = [0] + ds
             if rng.random() < 0.3:      # top bit of the register set
                 ds = [8 if rng.random() < 0.5 else 15] + ds[1:]
-            keys.append((ds, rng.random() < 0.3, rng.randint(0, 5000)))
+            keys.append((ds, rng.random() < 0.3, rng.choice([0, 0, 1, rng.randint(0, 5000), rng.randint(0, 5000)])))
         add(nq, keys, "counts_random")
     return cc
 
@@ -892,6 +1011,11 @@ def replay(ctx, data):
         o = inp["options"]
         verdict, nreq, exp, rec = submit(inp["proc"], spec, o)
         oracle_submit(ctx, inp, inp["proc"], spec, o, verdict, nreq, exp, rec)
+        if exp is not None and sig.startswith("history:"):
+            history_qobj(ctx, inp, exp, rec.calls[0][1]["qobj"] if rec.calls else None, probe=not sig.endswith(":regression"))
+            for f in ctx.failing:
+                if f["sig"] == sig.replace(":regression", ""):
+                    f["sig"] = sig
         v = verdict if not verdict.startswith("OTHER") else "CMinEmpty"
         terms.append(("CSubmit %s %s %s %s %s" % (t_proc(inp["proc"]), zl(o["shots"]), t_circ(spec), v, ct.nat(nreq)), inp))
         if exp is not None:
@@ -914,6 +1038,11 @@ def replay(ctx, data):
         keys = [(list(k[0]), bool(k[1]), k[2]) for k in inp["keys"]]
         counts, plain, out = counts_one(inp["n_qubits"], keys)
         oracle_counts(ctx, inp, inp["n_qubits"], keys, counts, plain, out)
+        if sig.startswith("history:"):
+            history_counts(ctx, inp, LAST_RES[0], counts, out, probe=not sig.endswith(":regression"))
+            for f in ctx.failing:
+                if f["sig"] == sig.replace(":regression", ""):
+                    f["sig"] = sig
         kvs = ct.lst(["(%s, %s)" % (t_zs(ds), zl(c)) for ds, _, c in keys])
         res = ct.lst(["(%s, %s)" % (ct.lst([ct.b(ch == "1") for ch in k]), zl(v)) for k, v in out])
         terms.append(("CCounts %s %s %s" % (ct.nat(inp["n_qubits"]), kvs, res), inp))
